@@ -132,6 +132,12 @@ def docs_for(tier):
     specs = c05.all_specs("quick")
     for i, spec in enumerate(specs[:: (23 if tier == "quick" else 5)]):
         items.append(("trees", spec))
+    # inheritance chains of 4 and 5 containers, listed most-derived first and base first (the loader meets every base before or after its
+    # inheritors)
+    for n in (4, 5):
+        for cf in (True, False):
+            items.append(("trees", {"n": n, "parents": tuple(range(n - 1)), "crits": tuple((3 * i + 1) % 12 for i in range(n - 1)), "abstract_bits": 1, "nest": 0,
+                                    "children_first": cf, "other_names": False}))
     # the attribute-coverage families of C09 (every criteria form incl. deep AND/OR nesting and blank-significant values, string/binary
     # configurations, calibrators/enumerations/time types, optional attributes, shared names)
     from mc.checks.c09 import extra_items
